@@ -104,7 +104,7 @@ struct Driver {
             as.push_back("{\"peer\":" + std::to_string(num(a.peer.id)) + ",\"sh\":" + sh + "]}");
         }
         e.raw("plan", ev::jlist(as));
-        if (present) { std::vector<long long> p; for (auto& c : *present) p.push_back(num(c.id)); std::sort(p.begin(), p.end()); e.ints("present", p); }
+        if (present && may_evict()) { std::vector<long long> p; for (auto& c : *present) p.push_back(num(c.id)); std::sort(p.begin(), p.end()); e.ints("present", p); }
         e.i("evict", may_evict() ? 1 : 0);
         long ncand = -1;   // informational: "Candidate peers discovered: N"
         for (auto& d : plan.diagnostics) { const std::string k = "Candidate peers discovered: "; if (d.rfind(k, 0) == 0) ncand = std::atol(d.c_str() + k.size()); }
